@@ -7,7 +7,8 @@
 (* filter; NewRule / AddEntry steps fill the plan one cheap choice at a time; Start publishes   *)
 (* the configuration; then each request is three steps - Mode chooses between any request and   *)
 (* one "near" the previous request (same host+method+path concatenation: other headers, other   *)
-(* client, or a colliding host/method split - the histories the cache is sensitive to), Pick(q)  *)
+(* client, or a colliding host/method split; or only the host differs - the histories the cache  *)
+(* is sensitive to), Pick(q)                                                                     *)
 (* only remembers the choice (cheap successors), Do performs HttpRouter!Request(q) (one         *)
 (* successor).                                                                                   *)
 (*                                                                                              *)
@@ -52,7 +53,7 @@ Start == /\ ~started /\ Built
          /\ UNCHANGED <<vars, plan, pend, mode>>
 
 Cat(q) == q.host \o q.m \o q.path
-NearSet(p) == {q \in Reqs : q # p /\ Cat(q) = Cat(p)}
+NearSet(p) == {q \in Reqs : q # p /\ (Cat(q) = Cat(p) \/ (q.m = p.m /\ q.path = p.path /\ q.hdr = p.hdr /\ q.ip = p.ip))}
 
 Mode == /\ started /\ pend = <<>> /\ mode = "" /\ n < MaxReqs
         /\ \/ mode' = "any"
@@ -81,6 +82,7 @@ GSpec == GInit /\ [][GNext]_gvars
 (* plans: entries per rule *)
 PlansBig == {<<2>>, <<3>>, <<1, 2>>, <<2, 1>>, <<2, 2>>, <<3, 1>>, <<1, 1, 1>>, <<2, 0, 1>>, <<1>>, <<0, 2>>}
 PlansHdrFocus == {<<2>>, <<1, 1>>, <<3>>}
+PlansFilterFocus == {<<2>>, <<3>>, <<2, 1>>, <<1, 2>>}
 PlansRuleFocus == {<<0, 1>>, <<1, 1>>, <<0, 2>>}
 PlansC12 == {<<1>>, <<2>>, <<1, 1>>, <<2, 1>>, <<1, 2>>, <<0, 1>>, <<0, 2>>, <<3>>}
 =============================================================================
